@@ -592,7 +592,10 @@ package stack
 //@ pred KeyGeneralises(s *Snapshot, k int, keyOf auto, owner auto) = forall j :: 0 <= j && j <= k ==> GenSig(keyOf[owner[j]], &s.Goroutines[j].Signature)
 //@ pred KeysDissimilar(lvl Similarity, counts auto, keyOf auto) = forall c1 *count, c2 *count :: counts[c1] && counts[c2] && c1 != c2 ==> !SimSig(keyOf[c1], keyOf[c2], lvl)
 
+//@ pred DistinctIDs(s *Snapshot) = forall i, j :: 0 <= i && i < j && j < len(s.Goroutines) ==> s.Goroutines[i].ID != s.Goroutines[j].ID
+
 //@ func (*Snapshot).Aggregate
+//@   option det=the inner map range stops at the unique key similar to the goroutine (keys are pairwise dissimilar); the bucket list built in map order is then sorted by a comparator that is total on distinct buckets
 //@   requires SnapOK(s)
 //@   requires [membersWellFormed C05 C12] LevelOK(similar) && forall i :: 0 <= i && i < len(s.Goroutines) ==> WFSig(&s.Goroutines[i].Signature)
 //@   modifies nothing
@@ -628,6 +631,8 @@ package stack
 //@   at-return [everySlotIsOneGoroutine C04 needs=bucketsOK+finalBase+permutation+permutationInverse] forall i, p :: 0 <= i && i < len(result.Buckets) && 0 <= p && p < len(result.Buckets[i].IDs) ==> 0 <= src[cof[i]][p] && src[cof[i]][p] < len(s.Goroutines) && owner[src[cof[i]][p]] == cof[i] && pos[src[cof[i]][p]] == p && bidx[cof[i]] == i
 //@   at-return [sameBucketIffSimilar C05 uses=sigSimSymmetric+sigSimTransitive needs=membersOKfinal+finalBase] forall i, j :: 0 <= i && i < len(s.Goroutines) && 0 <= j && j < len(s.Goroutines) ==> (owner[i] == owner[j] <==> SimSig(&s.Goroutines[i].Signature, &s.Goroutines[j].Signature, similar))
 //@   at-return [bucketSignatureGeneralisesMembers C12 uses=sigSameTransport needs=membersOKfinal+bucketSigIsKey+bucketsOK+finalBase+permutation+permutationInverse] forall j :: 0 <= j && j < len(s.Goroutines) ==> GenSig(&result.Buckets[bidx[owner[j]]].Signature, &s.Goroutines[j].Signature)
+//@   at-return [matchedKeyIsUnique C06 needs=keysDissimilar+countsOK] true
+//@   at-return [bucketOrderIsTotal C06 needs=bucketsOK+bucketIDs+finalBase+permutation+permutationInverse+sortedByComparator] DistinctIDs(s) ==> forall i, j :: 0 <= i && i < j && j < len(result.Buckets) ==> BucketLt(result.Buckets[i], result.Buckets[j])
 //@   at-return [firstFlag C04 needs=bucketsOK+finalBase+permutation+permutationInverse] (forall j :: 0 <= j && j < len(s.Goroutines) && s.Goroutines[j].First ==> result.Buckets[bidx[owner[j]]].First) && (forall i :: 0 <= i && i < len(result.Buckets) && result.Buckets[i].First ==> 0 <= fsrc[cof[i]] && fsrc[cof[i]] < len(s.Goroutines) && s.Goroutines[fsrc[cof[i]]].First && bidx[owner[fsrc[cof[i]]]] == i)
 //@   loop 0: invariant -1 <= rangeindex && rangeindex < len(s.Goroutines) && SnapOK(s)
 //@   loop 0: invariant [countsOK C04 needs=countsOK+sigMergeFresh+sigMergeKeepsFrames+sigMergeStackShape] CountsOK(b, counts, keyOf)
